@@ -104,7 +104,7 @@ def build(cx, stations, rows, sessions, algo_factory, t_now=2, limit_hi=100.0, u
         L = cx.real("limit%d" % i, lo=0, hi=limit_hi)
         limits.append(L)
         # with a warm-up call the constraints start with a loose limit and get their real one through update_constraint afterwards
-        net.add_constraint(A.Current({ids[j]: c for j, c in enumerate(row) if c != 0}), (1000.0 + i) if warmup else L, name="con%d" % i)
+        net.add_constraint(A.Current({ids[j]: c for j, c in enumerate(row) if c != 0}), (1000.0 + i) if warmup == "update" else L, name="con%d" % i)
     algo = algo_factory()
     sim = A.Simulator(net, algo, A.EventQueue(), START, period=PERIOD, verbose=False)
     evs, req, ppil, maxp = [], [], [], []
@@ -118,13 +118,22 @@ def build(cx, stations, rows, sessions, algo_factory, t_now=2, limit_hi=100.0, u
             net.plugin(w)
             warm.append(w)
         sim._iteration = 1
-        sc.warmup_schedule = algo.run()
+        if warmup == "rr_other_object":
+            # the earlier call is made by ANOTHER algorithm object (round robin) attached to the same simulator / network
+            import acnportal.algorithms as _ALG
+
+            other = _ALG.RoundRobin(_ALG.first_come_first_served, continuous_inc=0.05)
+            other.register_interface(A.Interface(sim))
+            sc.warmup_schedule = other.run()
+        else:
+            sc.warmup_schedule = algo.run()
         for w in warm:
             net.unplug(w.station_id, w.session_id)
         sim._iteration = 0
-        # the network is modified between the two calls (each constraint is updated in turn, which re-appends it: the order of the
-        # rows is the original one again at the end); the same algorithm object must see the new limits
-        for i, row in enumerate(rows):
+        # warmup == "update": the network is modified between the two calls (each constraint is updated in turn, which re-appends it:
+        # the order of the rows is the original one again at the end); the same algorithm object must see the new limits.
+        # warmup == True: nothing happens between the calls (whatever the first call wrote into shared structures is still there)
+        for i, row in (enumerate(rows) if warmup == "update" else ()):
             net.update_constraint("con%d" % i, A.Current({ids[j]: c for j, c in enumerate(row) if c != 0}), limits[i])
     P = np.empty((n, t_now + 1), dtype=object if cx.mode == "sym" else float)
     P.fill(0)
